@@ -211,6 +211,25 @@ func ruleC16c(c *Ctx) {
 	}
 	// the accessor's Read error is ReadEntity's result
 	okRet := false
+	// ReadEntity may hand the whole job to a helper whose result it returns
+	for hops := 0; hops < 2; hops++ {
+		var tail *ssa.Function
+		rets := returnsOf(re)
+		for _, r := range rets {
+			if len(r.Results) != 1 {
+				continue
+			}
+			if call, ok := strip(r.Results[0]).(*ssa.Call); ok && len(rets) == 1 {
+				if cal := call.Call.StaticCallee(); cal != nil && p.inModule(cal) && cal.Blocks != nil {
+					tail = cal
+				}
+			}
+		}
+		if tail == nil {
+			break
+		}
+		re = tail
+	}
 	eachInstr(re, func(i ssa.Instruction) {
 		call, ok := i.(*ssa.Call)
 		if !ok || !call.Call.IsInvoke() || call.Call.Method.Name() != "Read" {
